@@ -152,14 +152,15 @@ func vxH13out(P string) {
 	}
 	wf, p := vxNewProc13("vcmd w:{o:out}")
 	p.SetOutFunc("out", func(t *Task) string { return P })
-	// os.Stat outcomes of the successful scenario: out-IP absent at creation, no temp dir,
-	// no existing output, temp file present after the command
-	vxTraceStatSeq("0")
+	// os.Stat of symbolic paths in the successful scenario, by rule (not by call order, so
+	// that a change which stats once more or once less is not misread): a path exists iff
+	// this trace created it, or it lies in the task's temp dir and the command has run
+	vxTraceStatRule("\x00")
 	t := NewTask(wf, p, "p", p.CommandPattern, map[string]*FileIP{}, p.PathFuncs, p.PortInfo,
 		map[string]string{}, map[string]string{}, "", nil, 1)
 	tmp := t.TempDir()
 	vxAssume(vxNot(vxIsSym(tmp)))
-	vxTraceStatSeq("01")
+	vxTraceStatRule(tmp)
 	ev0 := vxEvCount()
 	kind := vxRun(func() {
 		go t.Execute()
@@ -280,13 +281,13 @@ func VxH13two() {
 	wf, p := vxNewProc13("vcmd w:{o:o1} w:{o:o2}")
 	p.SetOutFunc("o1", func(t *Task) string { return P1 })
 	p.SetOutFunc("o2", func(t *Task) string { return P2 })
-	vxTraceStatSeq("00")
+	vxTraceStatRule("\x00")
 	t := NewTask(wf, p, "p", p.CommandPattern, map[string]*FileIP{}, p.PathFuncs, p.PortInfo,
 		map[string]string{}, map[string]string{}, "", nil, 1)
 	tmp := t.TempDir()
 	vxAssume(vxNot(vxIsSym(tmp)))
-	// successful scenario: no existing outputs (2 stats), both temp files present afterwards
-	vxTraceStatSeq("0011")
+	// successful scenario: no existing outputs, both temp files present after the command
+	vxTraceStatRule(tmp)
 	vxMapOrder("createDirs,anyOutputsExist,ensureAllOutputsExist,finalizePaths")
 	ev0 := vxEvCount()
 	kind := vxRun(func() {
